@@ -76,11 +76,23 @@ def convert_eems2_commands(command_nodes):
 
     for node in command_nodes:
         try:
+            result_name = (
+                node.result_name
+                or find_argument(node, "NewFieldName")
+                or find_argument(node, "InFieldName")
+            )
+            if result_name is not None and not isinstance(
+                result_name, six.string_types
+            ):
+                # The argument that names the result holds a list, tuple or number: not usable as a result name
+                raise ProgramError(
+                    lineno=node.lineno,
+                    message="Cannot convert from EEMS 2.0: The result name taken from NewFieldName or InFieldName must be text.",
+                )
+
             converted.append(
                 CommandNode(
-                    node.result_name
-                    or find_argument(node, "NewFieldName")
-                    or find_argument(node, "InFieldName"),
+                    result_name,
                     EEMS_COMMANDS.get(node.command, node.command),
                     [
                         arg
